@@ -139,6 +139,7 @@ func runsFor(prop, tier string) []run {
 		// replica/client.ReplicaClient -> replica/rest router -> the same server
 		c5 := c2
 		c5.ViaREST = true
+		c5.Oracles = append(append([]string{}, c2.Oracles...), "restview")
 		c5.Alphabet = []string{"W", "SnapU", "SnapA", "Rm", "Mark", "ReopenP", "Reload", "Revert"}
 		// reverts back and forth between branches: a user snapshot outside the chain keeps its image and can be reverted to
 		c6 := c2
@@ -156,7 +157,13 @@ func runsFor(prop, tier string) []run {
 	case "C10":
 		c := ea.Cfg{Blocks: 1, Alphabet: []string{"W", "Mode:WO", "Mode:RW", "SetRev:7", "SetRev:3", "SetRev:12", "Close", "Open", "Reload", "SnapA", "ReopenP"},
 			WShapes: [][2]int{{0, 8}, {3, 2}}, RShapes: [][2]int{{0, 8}}, Oracles: []string{"rev", "crashopen", "reopen", "read"}, MaxSnaps: 2}
-		return []run{{"1blk-counter", c, pick(6, 8), minutes(pickf(2, 12))}}
+		// what GET /v1/replicas/1 reports (through the real replica client and router) is the counter the replica holds,
+		// open, dirty, closed or reopened
+		cr := c
+		cr.ViaREST = true
+		cr.Alphabet = []string{"W", "Mode:WO", "Mode:RW", "Close", "Open", "Reload", "SnapA", "ReopenP"}
+		cr.Oracles = []string{"rev", "restview", "reopen", "read"}
+		return []run{{"1blk-counter-as-reported-over-rest", cr, pick(4, 6), minutes(pickf(0.6, 5))}, {"1blk-counter", c, pick(6, 8), minutes(pickf(2, 12))}}
 	case "C16":
 		ws := [][2]int{{0, 8}, {8, 8}, {4, 8}, {16, 8}, {12, 8}, {24, 8}, {20, 12}}
 		c := ea.Cfg{Blocks: 2, Punch: true, Alphabet: []string{"W", "SnapU", "Grow", "Shrink", "ResizeGarbage", "ResizeEmpty", "ReopenP", "Revert", "Rm", "SnapA"},
